@@ -811,6 +811,64 @@ def check_one_shot_iterators(ctx, rep, funcs, rule=RULE + '.W6'):
     return n
 
 
+def check_consumed_twice(ctx, rep, funcs, rule=RULE + '.W6'):
+    """a one-shot iterator (generator expression, map, zip, itertools.* ...) bound to a name and consumed at two places of
+    which one can follow the other: the second consumer sees it empty.  The typical form hides the first consumer behind a
+    flag (`if logging: log(print(xs))` and then `result.update(xs)`), so the result depends on the flag."""
+    n = 0
+    for f in funcs:
+        fx = None
+        for d in walk_no_nested(f.node):
+            if not (isinstance(d, ast.Assign) and len(d.targets) == 1 and isinstance(d.targets[0], ast.Name) and _is_one_shot(ctx, f, d.value)):
+                continue
+            name = d.targets[0].id
+            if len([x for x in walk_no_nested(f.node) if isinstance(x, ast.Assign) and any(isinstance(t, ast.Name) and t.id == name for t in x.targets)]) != 1:
+                continue
+            uses = [x for x in walk_no_nested(f.node) if isinstance(x, ast.Name) and x.id == name and isinstance(x.ctx, ast.Load)]
+            if len(uses) < 2:
+                continue
+            if fx is None:
+                fx = ctx.facts(f)
+            cfg = fx.cfg
+            nodes = []
+            for x in uses:
+                nid = fx.stmt_of_expr(x)
+                if nid is not None:
+                    nodes.append((nid, x))
+            hit = None
+            dn = cfg.n_of(d)
+
+            def reach_avoiding(start):
+                # nodes reachable from start without passing the statement that creates the iterator anew
+                seen, work = set(), [b0 for (b0, _) in cfg.succ[start]]
+                while work:
+                    x0 = work.pop()
+                    if x0 in seen or x0 == dn:
+                        continue
+                    seen.add(x0)
+                    work.extend(b0 for (b0, _) in cfg.succ[x0])
+                return seen
+            for (a, xa) in nodes:
+                ra = reach_avoiding(a)
+                for (b, xb) in nodes:
+                    if xa is xb:
+                        continue
+                    if a == b or b in ra:
+                        if a == b and xa.col_offset > xb.col_offset:
+                            continue
+                        if a != b or xa is not xb:
+                            hit = (xa, xb, a != b and any(g for g in fx.guard_atoms(a) if g not in fx.guard_atoms(b)))
+                            break
+                if hit:
+                    break
+            if hit:
+                n += 1
+                xa, xb, guarded = hit
+                rep.violates(rule, f, d, 'the one-shot iterator {0} is consumed twice (lines {1} and {2}): the second consumer finds it empty{3}'.format(
+                    name, xa.lineno, xb.lineno, '; the first consumer runs only under a condition, so the result depends on that condition (e.g. whether logging is enabled)' if guarded else ''))
+    return n
+
+
 def check_marker_alias(ctx, rep, f, rule=RULE + '.W2'):
     """the worklist and its seen-marker must be different objects"""
     unit = ctx.effects.unit(f)
